@@ -194,14 +194,17 @@ Inductive prim :=
 | PDrop (p : path)                    (* the handle at this place is destroyed *)
 | PTouch (p : path)                   (* a member of the target is used *)
 | PPush | PPop                        (* scope entry / exit: exit destroys the variables and saved call parameters of the scope *)
-| PCallBegin | PCallEnd               (* Function_Push_Pop: conversion saves move to the scope's call_params at entry;
-                                         when the outermost call ends the scope's call_params and the saves are cleared *)
-| PStmtEnd                            (* the evaluator's temporaries die *)
+| PCallBegin (lvl : nat) | PCallEnd (lvl : nat)
+                                      (* Function_Push_Pop; lvl = the scope that owns the current call_params list
+                                         (new_stack pushes no list, so inside a function frame it is an outer scope):
+                                         conversion saves move to that list at entry; when the outermost call ends
+                                         the list and the saves are cleared *)
+| PStmtEnd (from : nat)                (* the evaluator's temporaries numbered from.. die (those of the statement that ends) *)
 | PCheckpoint
 | PEngineEnd                          (* every place except the C++ side's is destroyed *)
 | PCxxRelease.
 
-Definition is_temp (l : loc) : bool := match l with LRoot (RTemp _) => true | _ => false end.
+Definition is_temp_from (n : nat) (l : loc) : bool := match l with LRoot (RTemp k) => n <=? k | _ => false end.
 Definition is_conv (l : loc) : bool := match l with LRoot (RConv _) => true | _ => false end.
 Definition is_cxx (l : loc) : bool := match l with LRoot (RCxx _) => true | _ => false end.
 Definition is_root (l : loc) : bool := match l with LRoot _ => true | _ => false end.
@@ -262,15 +265,15 @@ Definition step (s : state) (o : prim) : state * list event :=
       | 0 => (s, [BadOp 3])
       | S d => let (s', ev) := drop_where (in_scope (S d)) s in (set_depth s' d, ev)
       end
-  | PCallBegin =>
-      (set_calls (relocate is_conv (conv_to_param (depth s)) s) (S (calls s)), [])
-  | PCallEnd =>
+  | PCallBegin lvl =>
+      (set_calls (relocate is_conv (conv_to_param lvl) s) (S (calls s)), [])
+  | PCallEnd lvl =>
       match calls s with
       | 0 => (s, [BadOp 4])
-      | 1 => let (s', ev) := drop_where (fun l => is_param_of (depth s) l || is_conv l) s in (set_calls s' 0, ev)
+      | 1 => let (s', ev) := drop_where (fun l => is_param_of lvl l || is_conv l) s in (set_calls s' 0, ev)
       | S c => (set_calls s c, [])
       end
-  | PStmtEnd => drop_where is_temp s
+  | PStmtEnd from => drop_where (is_temp_from from) s
   | PCheckpoint => (s, [Live (live_count s (next s))])
   | PEngineEnd => drop_where (fun l => is_root l && negb (is_cxx l)) s
   | PCxxRelease => drop_where is_cxx s
@@ -303,6 +306,38 @@ Fixpoint trace (ops : list prim) (s : state) : list state :=
 (* no reference cycle through slots: a rank that decreases along every owning slot reference *)
 Definition acyclic (s : state) : Prop :=
   exists rank : nat -> nat, forall o k h, In (LSlot o k, h) (refs s) -> h_own h = true -> rank (h_tgt h) < rank o.
+
+(* A syntactic discipline that implies [covered] ("the lifetime of a non-owning handle is nested in its owner's"):
+   non-owning handles live only in script variables, some variable of the same or an enclosing scope owns their
+   target, and no variable belongs to a scope that no longer exists. *)
+Definition var_depth (l : loc) : option nat := match l with LRoot (RVar d _) => Some d | _ => None end.
+Definition nested (s : state) : Prop :=
+  (forall d n h, In (LRoot (RVar d n), h) (refs s) -> d <= depth s) /\
+  (forall l h, In (l, h) (refs s) -> h_own h = false ->
+     exists db, var_depth l = Some db /\ exists d n, d <= db /\ In (LRoot (RVar d n), mkH true (h_tgt h)) (refs s)).
+
+Definition owning_at (s : state) (p : path) : bool :=
+  match handle_at s p with (RLoc _, Some h) => h_own h | _ => false end.
+Definition dst_ok (s : state) (p : path) : bool := match p with PRoot (RVar d _) => d <=? depth s | _ => true end.
+(* operations that keep the discipline: owning handles may go anywhere; a non-owning handle is made only from a variable
+   that owns the object, into a variable of the same or an inner scope; handles are never moved, and a variable loses its
+   handle only when its scope ends *)
+Definition disciplined (s : state) (o : prim) : bool :=
+  match o with
+  | PCreate dst _ => dst_ok s dst
+  | PShare src dst => owning_at s src && dst_ok s dst
+  | PClone _ dst => dst_ok s dst
+  | PBorrow (PRoot (RVar d n)) (PRoot (RVar d' _)) => (d <=? d') && (d' <=? depth s) && owning_at s (PRoot (RVar d n))
+  | PBorrow _ _ => false
+  | PMove _ _ => false
+  | PDrop (PRoot (RVar _ _)) => false
+  | _ => true
+  end.
+Fixpoint disciplined_run (ops : list prim) (s : state) : bool :=
+  match ops with
+  | [] => true
+  | o :: r => disciplined s o && disciplined_run r (fst (step s o))
+  end.
 
 (* ------------------------------------------------------------------------------------------ *)
 (* 2. ownership routes                                                                        *)
@@ -347,7 +382,8 @@ Inductive rshape :=
 | RFunction (n : nat).     (* the seven std::function spellings: boxed as an owning Proxy_Function *)
 
 Inductive rroute :=
-| RBox (arg : bshape) (rv : bool)   (* return Boxed_Value(<arg of this shape>, rv) *)
+| RBox (arg : bshape) (made : bool) (rv : bool)
+    (* return Boxed_Value(<arg of this shape>, rv); made: the argument is std::make_shared<T>(<the returned value>) *)
 | RInherit (r : rshape)             (* struct Handle_Return<..> : Handle_Return<r> {} *)
 | RPass                             (* the Boxed_Value is returned as it is (a handle copy) *)
 | RVoidVar
@@ -407,7 +443,11 @@ Fixpoint ret_flags (fuel : nat) (rtbl : list (rshape * rroute)) (btbl : list (bs
   | 0 => None
   | S f =>
       match lookup rshape_eqb r rtbl with
-      | Some (RBox arg rv) => box_flags 4 btbl arg false rv
+      | Some (RBox arg made rv) =>
+          match box_flags 4 btbl arg false rv with
+          | Some fl => Some (mkF (f_owning fl) (f_fresh fl || (made && f_owning fl)) (f_is_ref fl) (f_const fl) (f_rv fl))
+          | None => None
+          end
       | Some (RInherit r') => ret_flags f rtbl btbl r'
       | Some RPass => Some (mkF true false false false false)   (* the flags of the Boxed_Value passed through; owning here means: a handle copy *)
       | Some RVoidVar => None
@@ -429,7 +469,7 @@ Definition spec_ret (r : rshape) : option flags :=
   | RShared | RSharedRef | RSharedCRef => Some (mkF true false false false true)   (* shares ownership with C++ *)
   | RUnique => Some (mkF true false true false true)         (* takes the ownership over *)
   | RBoxed | RCBoxed | RBoxedRef | RBoxedCRef => Some (mkF true false false false false)
-  | RBoxedNumber | RCBoxedNumber => None
+  | RBoxedNumber | RCBoxedNumber => Some (mkF true false false false false)
   | RVoid => None
   | RFunction _ => Some (mkF true true false false false)
   end.
@@ -489,9 +529,11 @@ Inductive hop :=
 | HRet (r : rshape) (src : option path) (dst : path)
     (* a registered C++ function returned a value of shape r that denotes the target of src (an existing object)
        or a new C++ object (None); the resulting Boxed_Value is stored at dst *)
-| HBind (v : rvsrc) (tmp dst : path).
-    (* var x = e / container insert / first assignment of an attribute: the value at tmp is cloned
-       unless it is a return value, in which case its handle is taken over *)
+| HBind (v : rvsrc) (tmp dst : path) (save_src save_res : option path).
+    (* var x = e / container insert / first assignment of an attribute (clone_if_necessary): the value at tmp is
+       cloned unless it is a return value, in which case its handle is taken over.  A clone is a call of the script
+       function clone(x): evaluating its guard leaves a copy of the source handle in the current call_params list
+       (save_src), and its body, when the optimizer made it scopeless, a copy of the result handle (save_res). *)
 
 Definition scratch : path := PRoot (RTemp 9999).
 
@@ -510,10 +552,12 @@ Definition lower (fl : rshape -> option flags) (h : hop) : list prim :=
               if f_owning f then (if f_fresh f then [PClone p dst] else [PShare p dst]) else [PBorrow p dst]
           end
       end
-  | HBind v tmp dst =>
+  | HBind v tmp dst ss sr =>
       let rv := match v with RvYes => true | RvNo => false
                 | RvShape r => match fl r with Some f => f_rv f | None => false end end in
-      if rv then [PMove tmp dst] else [PClone tmp dst]
+      if rv then [PMove tmp dst]
+      else [PClone tmp dst] ++ match ss with Some p => [PShare tmp p] | None => [] end
+                            ++ match sr with Some p => [PShare dst p] | None => [] end
   end.
 
 Definition run_h (fl : rshape -> option flags) (hs : list hop) (s : state) : state * list event :=
